@@ -66,8 +66,8 @@ LABELS1 = ["p_{{{}}}", "S({})", "c", None]
 
 
 def _gen_bip(rng):
-    L = rng.choice([0, 1, 2, 3, 4])
-    R = rng.choice([0, 1, 2, 3, 4])
+    L = rng.choice([0, 1, 2, 3, 4, 4, 10, 11])
+    R = rng.choice([0, 1, 2, 3, 4, 4, 10, 12])
     if rng.random() < 0.15:
         return {"L": L, "R": R, "complete": True, "edges": []}
     es = [[u, v] for u in range(1, L + 1) for v in range(1, R + 1)
@@ -77,7 +77,7 @@ def _gen_bip(rng):
 
 
 def _gen_graph(rng, directed):
-    n = rng.choice([0, 1, 2, 3, 4, 5, 6])
+    n = rng.choice([0, 1, 2, 3, 4, 5, 6, 6, 10, 11, 12])
     p = rng.choice([0.0, 0.3, 0.6, 1.0])
     es = []
     for u in range(1, n + 1):
@@ -100,7 +100,9 @@ def _gen_op(rng, config):
     if r < 0.27:
         k = rng.choice([0, 1, 1, 2, 2, 3, 4])
         ranges = [rng.choice([0, 1, 2, 3, 4, -1]) if rng.random() < 0.85
-                  else rng.choice([5, -2]) for _ in range(k)]
+                  else rng.choice([5, -2, 10, 11]) for _ in range(k)]
+        if len([r for r in ranges if r >= 10]) > 1:
+            ranges = [min(r, 4) for r in ranges[:-1]] + ranges[-1:]
         label = rng.choice([None, "b(" + ",".join(["{}"] * k) + ")",
                             "m", "t{}{}{}", "u[{}]"])
         return {"op": "new_block", "ranges": ranges, "label": label}
